@@ -143,7 +143,15 @@ func vfRunRequest(ep int, o vfReqOpts) *vfReqResult {
 			res.act = vfActivity(typ, 1, nObj, 2, "Note")
 			res.act.tree["to"] = vfIRI("act.to")
 			if o.noTarget {
-				delete(res.act.tree, "target")
+				// missing = absent, or present as an empty array
+				if vfChoose("target.missing", 2) == 0 {
+					delete(res.act.tree, "target")
+				} else {
+					res.act.tree["target"] = []interface{}{}
+				}
+			}
+			if nObj == 0 && vfChoose("object.missing", 2) == 1 {
+				res.act.tree["object"] = []interface{}{}
 			}
 			w.missingReq = vfMissingRequired(typ, ep, nObj == 0, o.noTarget)
 			vfApplyIdKind(res.act.tree, idKind)
